@@ -611,6 +611,16 @@ func (t *fnTrans) unreachedGhost(name string) (out sval, ok bool) {
 	return sval{}, false
 }
 
+// hasSite: the function (with the helpers translated in place) has a contract site of that name
+func (t *fnTrans) hasSite(site string) bool {
+	for _, s := range t.sites {
+		if s == site {
+			return true
+		}
+	}
+	return false
+}
+
 func splitGhost(s string) (name, expr, site string, ok bool) {
 	i := strings.Index(s, "=")
 	j := strings.LastIndex(s, " at ")
